@@ -465,7 +465,7 @@ func run(r *report.Run, shard, nshards int, replayFile string) {
 	fresh := explore.Spec{
 		Name: "fresh", Init: []*explore.Node{{Ctx: ctx, Ghost: g0}}, Ops: e.ops,
 		Hash: e.hash, Invariant: e.invariant,
-		MaxDepth: 4, Deadline: r.Deadline(75*time.Second, 16*time.Minute),
+		MaxDepth: 4, Deadline: r.Deadline(100*time.Second, 8*time.Minute),
 		ShardDepth: 2, Shard: shard, NShards: nshards,
 	}
 	// seeded: j1 fixed/P1 owned by U1, j2 modifiable/P2 owned by U2 — created by the real handlers
@@ -497,12 +497,12 @@ func run(r *report.Run, shard, nshards int, replayFile string) {
 	seeded := explore.Spec{
 		Name: "seeded", Init: []*explore.Node{{Ctx: sctx, Ghost: sg}}, Ops: e.ops,
 		Hash: e.hash, Invariant: e.invariant,
-		MaxDepth: 4, Deadline: r.Deadline(130*time.Second, 24*time.Minute),
+		MaxDepth: 4, Deadline: r.Deadline(150*time.Second, 24*time.Minute),
 		ShardDepth: 2, Shard: shard, NShards: nshards,
 	}
 	if r.Thorough() {
-		fresh.MaxDepth = 6
-		seeded.MaxDepth = 7
+		fresh.MaxDepth = 5  // + deadline: ~1.4e6 transitions
+		seeded.MaxDepth = 6 // two jobs already exist: depth 6 here = depth 8 from the empty chain
 	}
 	if v := os.Getenv("VERIF_C17_DEPTHS"); v != "" { // experiments only
 		fmt.Sscanf(v, "%d,%d", &fresh.MaxDepth, &seeded.MaxDepth)
@@ -551,6 +551,7 @@ func replay(r *report.Run, specs []explore.Spec, file string) {
 			fmt.Printf("replay %s %v: no violation\n", spec.Name, path)
 		}
 	}
+	r.States, r.Transitions = 1, int64(len(path))
 	r.Evaluations, r.DistinctN = int64(len(path)), 2
 	r.Sample(path)
 }
@@ -841,7 +842,7 @@ func diffClass(got, want call, rec *jobRec, sup supplied) string {
 		if len(got.Payload) >= 64 && len(want.Payload) >= 64 && got.Payload[len(got.Payload)-64:] != want.Payload[len(want.Payload)-64:] {
 			return "wrong-sender-suffix"
 		}
-		if !rec.Mod && len(sup.Bytes) > 0 {
+		if !rec.Mod && sup.Bytes != nil {
 			return "fixed-payload-overridden"
 		}
 		return "wrong-payload"
